@@ -30,7 +30,7 @@ ASSUMPTIONS = [
     "float32 comparison tolerance 1e-5 relative",
     "TorchScript-compiled and CUDA variants not explored",
 ]
-BUDGET_S = {"quick": 240, "thorough": 2400}
+BUDGET_S = {"quick": 900, "thorough": 3000}
 PAD2 = -7
 
 
